@@ -572,6 +572,24 @@ func genC01(g *G) {
 	for _, β := range []int{-1, 1001, 0, 1000} {
 		g.Case([]string{"reset nat", fmt.Sprintf("new 0 %d 5 1 9 5 3", β)})
 	}
+	// LARGE bulk loads (size-dependent paths of New): already sorted with duplicates, reverse sorted, shuffled;
+	// natural comparison, so that equal keys are indistinguishable and Go's unstable sort cannot matter
+	for i, n := range []int{256, 300, 700} {
+		if !g.Mine(i) {
+			continue
+		}
+		for _, β := range []int{0, 250, 1000} {
+			var asc, desc, mix []string
+			for j := 0; j < n; j++ {
+				asc = append(asc, fmt.Sprint(j/2))         // sorted, every key twice
+				desc = append(desc, fmt.Sprint((n-j)/3))   // reverse sorted, every key three times
+				mix = append(mix, fmt.Sprint(g.Intn(n/2))) // shuffled with duplicates
+			}
+			for _, keys := range [][]string{asc, desc, mix} {
+				g.Case([]string{"reset nat", fmt.Sprintf("new 0 %d %s", β, strings.Join(keys, " ")), "remove 0 1", "add 0 1", fmt.Sprintf("remove 0 %d", n/4)})
+			}
+		}
+	}
 	nsh := 2
 	if g.Thorough() {
 		nsh = 8
